@@ -16,8 +16,8 @@ BOUNDS = ("no bound on words (all 2^8..2^64 patterns) or on float inputs (all no
           "The quick tier proves the expensive FP obligations on the 18 reference fields only and transfers them to the other fields through the layout obligations (the per-field terms are identical); the thorough tier also "
           "proves them directly on every field. F3x9_E1x5 pack accuracy per binade of the largest component: quick 3 binades (below 2^-16, [1,2), [2^15,2^16)), thorough all 33; re-pack per exponent field value: quick 6, thorough all 32.")
 OUTSIDE = ("the float<->half conversion itself (C07; here only layout and re-pack of the half formats); F3x9_E1x5 relies on contracts for exp2f/log2f (see assumptions) and on log2f being used only through floor(); "
-           "float->int conversion UB inside packF3x9_E1x5 is not discharged here (C20); direct bit-precise monotonicity of 16-bit fields (two independent multipliers) is only attempted as an optional obligation in the "
-           "thorough tier; the independent half-step bound is not proved for the binary64 template instances (their formula obligation is); RGBM in rounding-erased arithmetic only.")
+           "float->int conversion UB inside packF3x9_E1x5 is not discharged here (C20); direct bit-precise monotonicity of 16-bit fields (two independent multipliers): thorough tier only, adjacent-float form, mandatory for |x| < 2^-6, optional for 2^-6 <= |x| < 1/4, "
+           "not attempted for 1/4 <= |x| < 1 (> 600 s per query; covered by the formula obligation and the rounding lemmas); the independent half-step bound is not proved for the binary64 template instances (their formula obligation is); RGBM in rounding-erased arithmetic only.")
 ASSUMPTIONS = ['glibc exp2f is exact for integral arguments in [-126,127]; log2f is faithful in the sense: log2f(x) in [E,E+1] for finite x in [2^E,2^(E+1)) and equal to E+1 only for x within 16 ulps below 2^(E+1); log2f(x) <= -16 or -inf and not NaN for 0 <= x < 2^-16 (used for F3x9_E1x5 only)',
                'IEEE-754: fl32(x*s) is within half an ulp of x*s and monotone in x for s > 0 (used only to extend the half-step bound of 16-bit fields to 2^-6 <= |x| < 1 in the quick tier and for monotonicity of 16-bit fields)']
 F32 = z3.Float32(); F64 = z3.Float64()
@@ -649,7 +649,7 @@ def jobs(tier):
             if not q:
                 if F.fw == 32 and b >= 12:      # 16-bit fields: adjacent-float monotonicity directly for |x| < 2^-6, optional above (quick: via the formula obligation and the rounding lemmas)
                     J.append(('mono_' + tg, job_mono_adj(nm, [k], emax=HS16_MAXEXP)))
-                    J += [('mono_%s_e%d' % (tg, e), job_mono_adj(nm, [k], emin=e, emax=e, mandatory=False)) for e in range(HS16_MAXEXP + 1, 127)]
+                    J += [('mono_%s_e%d' % (tg, e), job_mono_adj(nm, [k], emin=e, emax=e, mandatory=False)) for e in range(HS16_MAXEXP + 1, 125)]       # e125/e126 need > 600 s per query
                 if b < 12: J.append(('mono2_' + tg, job_mono(nm, [k])))     # the two-variable form (binary64 instances: the only form)
             if b >= 12: J += [('repack_%s_q%d' % (tg, h), job_repack(nm, [k], tops=tuple('top%d' % t for t in range(4 * h, 4 * h + 4)))) for h in range(4)]
     J.append(('round_lemmas', job_round_lemmas))
